@@ -47,9 +47,18 @@ type c08Case struct {
 	// TimeoutThenRefuse: remotes that time out in the first lost iteration merely refuse connections
 	// from the second one on (the host came back, its mysqld did not): nothing is unreachable any more
 	TimeoutThenRefuse bool `json:"timing_out_remotes_refuse_from_iteration_2,omitempty"`
+	// FailCall >= 0: the state-changing statement number FailCall of the FIRST lost iteration fails once
+	// (b = 1); only the state after the last iteration is judged: the node must end up fenced and no
+	// commit may still hang
+	FailCall *int `json:"failing_statement_of_first_lost_iteration,omitempty"`
 }
 
 func (c c08Case) String() string {
+	if c.FailCall != nil {
+		cc := c
+		cc.FailCall = nil
+		return cc.String() + fmt.Sprintf(" failing-statement=%d", *c.FailCall)
+	}
 	if c.TimeoutThenRefuse {
 		cc := c
 		cc.TimeoutThenRefuse = false
@@ -199,13 +208,49 @@ func c08Run(r *vt.Run, c c08Case) {
 					}
 				}
 			}
+			if p == 0 && c.FailCall != nil {
+				// find the FailCall-th state-changing statement as the iteration goes
+				seen := 0
+				w.Chooser = func(pend []*sim.Call) int {
+					if pend[0].Kind == "sql" && pend[0].Mut {
+						if seen == *c.FailCall {
+							w.Plan[len(w.Trace)] = sim.Deviation{Kind: sim.DevErr}
+						}
+						seen++
+					}
+					return 0
+				}
+			}
 			muts = muts[:0]
 			roBefore := lsrv.ReadOnly
 			hadWaiters := lsrv.HasWaiters()
 			hadBlockers := lsrv.BlocksReadOnly()
 			tickStart := w.Now()
 			h.Tick(a)
+			w.Chooser = nil
+			c08MutsOfFirst = max(c08MutsOfFirst, 0)
+			if p == 0 {
+				n := 0
+				for _, q := range w.Trace {
+					if q.Kind == "sql" && q.Mut && q.T >= tickStart {
+						n++
+					}
+				}
+				c08MutsOfFirst = n
+			}
 			where := fmt.Sprintf("lost iteration %d of %s", p, c)
+			if c.FailCall != nil {
+				if p == passes-1 {
+					if !(lsrv.ReadOnly && lsrv.SuperRO) {
+						r.Violate("C08/1-fences-when-not-safe/after-one-failed-statement", fmt.Sprintf("node not read-only after %d lost iterations: %s", passes, where), c)
+					}
+					if lsrv.HasWaiters() {
+						r.Violate("C08/2-stuck-commits-cut-and-released/after-one-failed-statement", fmt.Sprintf("a commit still hangs on ACK after %d lost iterations: %s", passes, where), c)
+					}
+					r.Outcome("b1-final-state-judged")
+				}
+				continue
+			}
 			if len(w.Panics) > 0 || len(w.Unknown) > 0 {
 				r.Violate("C08/0-engine", fmt.Sprintf("panics=%v unknown=%v in %s", w.Panics, w.Unknown, where), c)
 				return
@@ -330,6 +375,8 @@ func c08Run(r *vt.Run, c c08Case) {
 	})
 }
 
+var c08MutsOfFirst int
+
 func checkC08(r *vt.Run) {
 	var rc c08Case
 	if r.ReplayInto(&rc) {
@@ -369,6 +416,23 @@ func checkC08(r *vt.Run) {
 		return res
 	}
 	allKinds := []int{kStreaming, kStopped, kWrongSource, kSemiOff, kRefusing, kTimeout}
+	// b = 1: one failing statement in the first lost iteration of a master with a commit stuck on ACK
+	for _, base := range []c08Case{
+		{Local: "master", Remotes: []int{kRefusing, kRefusing}, WC: 1, PluginOn: true, Write: true, Advances: []int{5, 5, 5}},
+		{Local: "master", Remotes: []int{kStopped, kRefusing}, WC: 1, PluginOn: true, Write: true, LongQuery: true, Advances: []int{5, 5, 5}},
+		{Local: "master", Remotes: []int{kRefusing, kRefusing}, WC: 1, PluginOn: true, Advances: []int{5, 5, 5}},
+	} {
+		c08MutsOfFirst = 0
+		c08Run(r, base)
+		r.R.Evaluations--
+		n := c08MutsOfFirst
+		for i := 0; i < n; i++ {
+			i := i
+			cc := base
+			cc.FailCall = &i
+			run(cc)
+		}
+	}
 	advs := [][]int{nil, {5}, {31}, {5, 31}}
 	type cfg struct {
 		async  bool
